@@ -19,7 +19,46 @@ let flush_case id ops evs faults =
     List.iter (fun x -> print_char ' '; print_int (int_of_z x)) a; print_newline ()) tr;
   print_string "X\n"
 
-let () =
+(* ---- address mode --------------------------------------------------------------------------------------- *)
+let unhex h =
+  if h = "-" then [] else
+  let n = String.length h / 2 in
+  List.init n (fun i -> z_of_int (int_of_string ("0x" ^ String.sub h (2 * i) 2)))
+let hex l =
+  if l = [] then "-" else String.concat "" (List.map (fun z -> Printf.sprintf "%02x" (int_of_z z)) l)
+let rec nat_to_int = function O -> 0 | S n -> 1 + nat_to_int n
+let maxlen subjects = List.fold_left (fun m s -> max m (List.length s)) 0 subjects
+
+let print_dissected d =
+  match d with
+  | DOk (host, serv, ns) -> Printf.printf "G %s %s %d\n" (hex (c_str host)) (hex (c_str serv)) (if ns then 1 else 0)
+  | DExn e -> (match exn_code e with
+               | [a; b] -> Printf.printf "R exn %d %d\n" (int_of_z a) (int_of_z b)
+               | _ -> print_string "R exn ? ?\n")
+
+let addr_mode () =
+  (try
+    while true do
+      let line = input_line stdin in
+      match String.split_on_char ' ' (String.trim line) |> List.filter (fun s -> s <> "") with
+      | ["U"; id; a] ->
+          let u = unhex a in
+          Printf.printf "C %s\n" id; print_dissected (uri_dissect u);
+          Printf.printf "B %d\n" (maxlen (regex_subjects_uri u)); print_string "X\n"
+      | ["P"; id; a; b] ->
+          let h = unhex a and s = unhex b in
+          Printf.printf "C %s\n" id; print_dissected (hostserv_dissect h s);
+          Printf.printf "B %d\n" (maxlen (regex_subjects_hostserv h s)); print_string "X\n"
+      | ["S"; id; v6; a; b] ->
+          Printf.printf "C %s\nS %s\nX\n" id (hex (to_string_model (v6 = "1") (unhex a) (unhex b)))
+      | ["V"; id; a; b] ->
+          Printf.printf "C %s\nV %d %d\nX\n" id (if view_eq (unhex a) (unhex b) then 1 else 0) (if view_lt (unhex a) (unhex b) then 1 else 0)
+      | [] -> ()
+      | _ -> ()
+    done
+  with End_of_file -> ())
+
+let sim_mode () =
   let id = ref "" and ops = ref [] and evs = ref [] and faults = ref [] in
   (try
     while true do
@@ -35,3 +74,5 @@ let () =
       | _ -> failwith ("bad line: " ^ line)
     done
   with End_of_file -> ())
+
+let () = if Array.length Sys.argv > 1 && Sys.argv.(1) = "addr" then addr_mode () else sim_mode ()
